@@ -980,7 +980,9 @@ func (c *SpecCtx) pureCall(fn *types.Func, args []TV) TV {
 	} else {
 		rt = res
 	}
-	return TV{c.e.pureApp(key, vals, rt, c.heap, heapDep), rt}
+	out := TV{c.e.pureApp(key, vals, rt, c.heap, heapDep), rt}
+	c.functionAxioms(fn, key, args, out)
+	return out
 }
 
 func funcKey(fn *types.Func) string {
@@ -1082,4 +1084,70 @@ func (c *SpecCtx) atomicLoad(recv TV, method string) (TV, bool) {
 		}
 	}
 	return TV{}, false
+}
+
+// functionAxioms: when a pure function with postconditions is applied in a specification to ground
+// arguments, its postconditions (verified or trusted in its own contract) are made available.
+func (c *SpecCtx) functionAxioms(fn *types.Func, key string, args []TV, out TV) {
+	if c.depth > 3 {
+		return
+	}
+	for _, a := range args {
+		for _, l := range flatten(a.V) {
+			if strings.Contains(l.S, "!q") {
+				return
+			}
+		}
+	}
+	var ens []Clause
+	var names []string
+	pkg := fn.Pkg()
+	var lets map[string]*Macro
+	if fc := c.e.W.Contracts.lookupFunc(fn); fc != nil && fc.Pure {
+		ens = fc.Ensures
+		names = calleeParamNames(nil, fn, len(args), nil)
+		lets = letsOf(fc)
+	} else if ext, ok := c.e.W.Contracts.Externs[key]; ok {
+		ens = ext.Ensures
+		names = calleeParamNames(nil, fn, len(args), ext)
+		lets = map[string]*Macro{}
+	}
+	if len(ens) == 0 {
+		return
+	}
+	memo := key + "@" + c.heap.epoch.S
+	for _, a := range args {
+		memo += "|" + fmtValue(a.V)
+	}
+	if c.e.axiomMemo[memo] {
+		return
+	}
+	c.e.axiomMemo[memo] = true
+	cc := &SpecCtx{e: c.e, heap: c.heap, old: c.heap, vars: map[string]TV{}, pkg: pkg, lets: lets, ghost: map[string]ghostInst{}, depth: c.depth + 1}
+	if pkg == nil {
+		cc.pkg = c.pkg
+	}
+	for i, n := range names {
+		cc.vars[n] = args[i]
+		cc.vars[fmt.Sprintf("a%d", i)] = args[i]
+	}
+	sig := fn.Type().(*types.Signature)
+	rn := resultNames(sig)
+	if sig.Results().Len() == 1 {
+		cc.vars[rn[0]] = out
+		cc.vars["result"] = out
+		cc.vars["result0"] = out
+	} else if tv, ok := out.V.(TupleV); ok {
+		for i, n := range rn {
+			cc.vars[n] = TV{tv.E[i], sig.Results().At(i).Type()}
+			cc.vars[fmt.Sprintf("result%d", i)] = cc.vars[n]
+		}
+	}
+	for _, en := range ens {
+		t, err := cc.EvalBool(en.E)
+		if err != nil {
+			continue
+		}
+		c.e.assumeGlobal(t, "function axiom of "+key+": "+en.Src)
+	}
 }
